@@ -57,6 +57,14 @@ Outcomes(r, op, a) ==
   IN IF IsNeed(x) THEN UNION { Outcomes(r @@ (x.need :> v), op, a) : v \in x.dom }
      ELSE { <<r, x>> }
 
+\* entry points that take a slice (&[Identifier], &[KeyPackage]) see it in the caller's order
+OrderOf(s, name) ==
+  LET m == Len(s) IN
+  CASE name = "asc"  -> s
+    [] name = "desc" -> [k \in 1..m |-> s[m + 1 - k]]
+    [] name = "rot"  -> [k \in 1..m |-> s[(k % m) + 1]]
+CallerOrders(s) == {OrderOf(s, n) : n \in {"asc", "desc", "rot"}}
+
 \* a call that succeeded binds `binds` (handle -> object); a failed one binds nothing
 Finish(op, res, binds, step) ==
   /\ last' = [op |-> op, res |-> res]
@@ -109,6 +117,7 @@ TamperedSs(ss, what, k, d) ==
     [] what = "commit" -> [ss EXCEPT !.commit[k] = Add(@, d)]
     [] what = "trunc"  -> [ss EXCEPT !.commit = SubSeq(@, 1, Len(@) - 1)]
     [] what = "extend" -> [ss EXCEPT !.commit = Append(@, d)]
+    [] what = "zero"   -> [ss EXCEPT !.share = 0]
 
 ActTamperSs(out, ssh, what, k, d) ==
   /\ Has(ssh)
@@ -337,6 +346,13 @@ ActTamperR2(out, h, d) ==
   /\ Finish("tamper_r2", [ok |-> TRUE], (out :> [env[h] EXCEPT !.share = Add(@, d)]),
             [op |-> "tamper_r2", out |-> out, src |-> h, d |-> d])
 
+\* adversary: a round-two package carrying the zero share
+ActZeroR2(out, h) ==
+  /\ Has(h)
+  /\ ro' = ro
+  /\ Finish("zero_r2", [ok |-> TRUE], (out :> [env[h] EXCEPT !.share = 0]),
+            [op |-> "zero_r2", out |-> out, src |-> h])
+
 \* part2 / refresh_dkg_part2: r1 : sender id -> handle; round-two packages are
 \* bound to <<r2n, recipient>>
 ActDkg2(sech2, r2n, sech, r1, refresh) ==
@@ -418,7 +434,10 @@ ActRepair1(dn, helpers, kph, draws, x) ==
                ELSE << >>,
                [op |-> "repair1", out |-> dn, helpers |-> helpers, kp |-> kph, target |-> x,
                 rng |-> Draws2(draws),
-                expect |-> IF res.ok THEN [ok |-> TRUE, deltas |-> Pairs(res.deltas)] ELSE ErrProj(res)])
+                expect |-> IF res.ok THEN [ok |-> TRUE, deltas |-> Pairs(res.deltas),
+                                           delta_ids |-> Sorted(DOMAIN res.deltas),
+                                           delta_sum |-> SumOver(DOMAIN res.deltas, LAMBDA j : res.deltas[j])]
+                           ELSE ErrProj(res)])
 
 ActRepair2(out, dhs) ==
   /\ \A k \in DOMAIN dhs : Has(dhs[k])
